@@ -369,15 +369,23 @@ def _build_serializer(spec: dict) -> Any:
     k = spec["kind"]
     if k == "line":
         return StringLineSerializer(
-            spec["newline"], encoding=spec.get("encoding", "ascii"), limit=spec.get("limit", DEFAULT_LIMIT), keep_end=spec.get("keep_end", False)
+            spec["newline"],
+            encoding=spec.get("encoding", "ascii"),
+            limit=spec.get("limit", DEFAULT_LIMIT),
+            keep_end=spec.get("keep_end", False),
+            debug=bool(spec.get("debug")),
         )
     if k == "json":
         enc = JSONEncoderConfig(ensure_ascii=spec.get("ensure_ascii", True))
         return JSONSerializer(
-            enc, encoding=spec.get("encoding", "utf-8"), limit=spec.get("limit", DEFAULT_LIMIT), use_lines=spec.get("use_lines", True)
+            enc,
+            encoding=spec.get("encoding", "utf-8"),
+            limit=spec.get("limit", DEFAULT_LIMIT),
+            use_lines=spec.get("use_lines", True),
+            debug=bool(spec.get("debug")),
         )
     if k == "struct":
-        return StructSerializer(spec["endian"] + "".join(spec["fields"]))
+        return StructSerializer(spec["endian"] + "".join(spec["fields"]), debug=bool(spec.get("debug")))
     if k == "namedtuple":
         fields = spec["fields"]
         cls = _namedtuple_cls(len(fields))
@@ -387,6 +395,7 @@ def _build_serializer(spec: dict) -> Any:
             format_endianness=spec["endian"],
             encoding="utf-8",
             strip_string_trailing_nul_bytes=True,
+            debug=bool(spec.get("debug")),
         )
     if k == "base64":
         return Base64EncoderSerializer(
@@ -395,11 +404,12 @@ def _build_serializer(spec: dict) -> Any:
             checksum={"none": False, "sha": True, "key": B64_KEY}[spec.get("checksum", "none")],
             separator=spec["separator"],
             limit=spec.get("limit", DEFAULT_LIMIT),
+            debug=bool(spec.get("debug")),
         )
     if k == "zlib":
-        return ZlibCompressorSerializer(_build_serializer(spec["inner"]), compress_level=spec.get("level"))
+        return ZlibCompressorSerializer(_build_serializer(spec["inner"]), compress_level=spec.get("level"), debug=bool(spec.get("debug")))
     if k == "bz2":
-        return BZ2CompressorSerializer(_build_serializer(spec["inner"]), compress_level=spec.get("level"))
+        return BZ2CompressorSerializer(_build_serializer(spec["inner"]), compress_level=spec.get("level"), debug=bool(spec.get("debug")))
     if k == "pickle":
         if spec.get("restricted") == "py":
             return PickleSerializer(unpickler_cls=RestrictedPyUnpickler)  # type: ignore[arg-type]
@@ -570,7 +580,20 @@ def st_stream_spec(draw: st.DrawFn, *, kinds: list[str] | None = None) -> dict:
         spec = draw(st_leaf_spec(kinds=[top]))
     if draw(st.integers(0, 5)) == 0:
         spec = dict(spec, conv=True)
+    if draw(st.integers(0, 3)) == 0:
+        spec = with_debug(spec)
     return spec
+
+
+def with_debug(spec: dict) -> dict:
+    """debug=True on every serializer of the spec that has the option (error_info is filled in on parse errors)"""
+    out = dict(spec)
+    if spec["kind"] in ("line", "json", "struct", "namedtuple", "base64", "zlib", "bz2"):
+        out["debug"] = True
+    for key in ("inner", "sent", "recv"):
+        if key in spec:
+            out[key] = with_debug(spec[key])
+    return out
 
 
 def _converter_refuses(j: Any) -> bool:
